@@ -194,7 +194,7 @@ func (w *signWorld) str(pos string) string {
 		}
 		return s
 	case "env.name", "penv.name":
-		names := []string{"FOO", "BAR", "DEPLOY", "CONTEXT", "AWS_REGION", "NODE_ENV", "X", "Y", "Z", "PATH_EXTRA"}
+		names := []string{"FOO", "BAR", "DEPLOY", "CONTEXT", "AWS_REGION", "NODE_ENV", "X", "Y", "Z", "PATH_EXTRA", "node_env", "env", "version", "e2e_target", "n", "vv", "Path", "nv::x"}
 		n := names[t.Draw(len(names), "str:envname")]
 		if t.Draw(4, "str:envname-suffix") == 3 {
 			n += fmt.Sprint(t.Draw(30, "str:envname-n"))
